@@ -20,7 +20,7 @@ import numpy as np
 
 import sim  # noqa: F401
 from sim import build
-from sim.core import attempt, exc_tag
+from sim.core import attempt, bulk_tier, exc_tag
 from sim.oracle import arrays_equal, first_diff, missed_tuple, snap, snap_diff
 
 PROPERTY = "C15"
@@ -59,6 +59,9 @@ def generate(rng, seed, part):
     klass = rng.choice(CLASSES)
     d = SRC_DIM[klass]
     n = rng.choice([1, 2, 4, 8, 16, 24])
+    bulk = bulk_tier(rng)
+    if bulk:
+        n = rng.choice([2500, 5000, 9000])  # entered in batches of thousands
     pts = []
     for _ in range(n):
         r = rng.random()
@@ -75,6 +78,9 @@ def generate(rng, seed, part):
     weights = None if rng.random() < 0.6 else [rng.randint(0, 32) / 8.0 for _ in range(n)]
     k = rng.randint(3, 6)
     paths = ["facade"] + [rng.choice(PATHS[1:]) for _ in range(k - 1)]
+    if bulk:
+        k = rng.randint(2, 3)
+        paths = ["facade"] + [rng.choice(["fill_n", "fill_n_t", "facade_t"]) for _ in range(k - 1)]
     rng.shuffle(paths)
     vtype = rng.choice(["f64", "f64", "f32"])
     if vtype == "f32":
@@ -107,6 +113,8 @@ def generate(rng, seed, part):
                 j = 0
                 while j < len(order):
                     m = rng.randint(1, min(6, len(order) - j))
+                    if bulk:
+                        m = min(len(order) - j, rng.choice([40, 2048, 3000, 5000, len(order)]))
                     q.append({"r": r_id, "op": "batch", "idx": order[j:j + m]})
                     j += m
             queues.append(q)
@@ -115,7 +123,9 @@ def generate(rng, seed, part):
             ops.append(q.pop(0))
         ops.append({"op": "barrier"})
     for _ in range(rng.randint(0, 2)):
-        ops.append({"op": "projection", "r": rng.randrange(k), "arg": rng.randrange(16)})
+        ops.append({"op": "projection", "r": rng.randrange(k), "arg": rng.randrange(16),
+                    # the axes may carry the user's own names, be addressed by name, and a projection be projected again
+                    "rename": rng.random() < 0.3, "by_name": rng.random() < 0.3, "again": rng.randrange(4)})
     for _ in range(rng.randint(0, 2)):
         ops.append({"op": "wrong_dim", "r": rng.randrange(k), "how": rng.choice(["fill", "fill_n", "find_bin", "transform"]),
                     "delta": rng.choice([-1, 1, 2])})
@@ -428,7 +438,12 @@ def execute(plan, ctx):
             axes = [a for a in range(nd) if (op["arg"] >> a) & 1]
             if not axes or len(axes) == nd:
                 axes = [op["arg"] % nd]
-            ok, pr = attempt(h.projection, *axes)
+            if op.get("rename"):
+                h = h.copy()
+                h.axis_names = tuple(["first", "second", "third"][:nd])
+                ctx.probe("projection_of_renamed_axes")
+            args = [h.axis_names[a] for a in axes] if op.get("by_name") else axes
+            ok, pr = attempt(h.projection, *args)
             ctx.fault("projection")
             ctx.ev(r_id, "projection", tuple(axes), "ok" if ok else exc_tag(pr))
             ctx.abstract("projection", name, tuple(axes), ok)
@@ -448,6 +463,22 @@ def execute(plan, ctx):
                 ctx.violation("C15/projection", f"C15/projection-contents/{name}/{tuple(axes)}",
                               f"{K.__name__}.projection{tuple(axes)} contents {np.asarray(pr.frequencies).tolist()} are not the "
                               f"marginal sums {mf.tolist()}"[:1200])
+            # a projection is a special histogram in its own right: projecting it again obeys its own class map
+            pname = {"PolarHistogram": "polar", "SphericalHistogram": "spherical",
+                     "CylindricalHistogram": "cylindrical", "CylindricalSurfaceHistogram": "cylindrical_surface",
+                     "SphericalSurfaceHistogram": "spherical_surface"}.get(type(pr).__name__)
+            if pname and pr.ndim >= 2 and op.get("again") is not None:
+                ax2 = op["again"] % pr.ndim
+                ok2, pr2 = attempt(pr.projection, ax2)
+                ctx.probe("projection_of_projection")
+                if not ok2:
+                    ctx.violation("C15/projection", f"C15/projection-raised/{pname}<-{name}/{(ax2,)}/{exc_tag(pr2)}",
+                                  f"{type(pr).__name__}.projection({ax2}) (itself a projection of {K.__name__}) raised {pr2!r}")
+                want2 = projection_class(pname, (ax2,))
+                if want2 is not None and type(pr2).__name__ != want2:
+                    ctx.violation("C15/projection", f"C15/projection-class/{pname}<-{name}/{(ax2,)}",
+                                  f"{type(pr).__name__}.projection({ax2}) (itself a projection of {K.__name__}) is a "
+                                  f"{type(pr2).__name__}, expected {want2}")
         elif o == "wrong_dim":
             bad_d = max(1, d + op["delta"])
             if bad_d == d or (name.startswith("radial") and bad_d in (2, 3)):
@@ -486,6 +517,7 @@ def projection_class(name, axes):
         "spherical": {(1, 2): "SphericalSurfaceHistogram", (0,): "RadialHistogram"},
         "cylindrical": {(0,): "RadialHistogram", (1,): "AzimuthalHistogram", (0, 1): "PolarHistogram",
                         (1, 2): "CylindricalSurfaceHistogram"},
+        "cylindrical_surface": {(0,): "AzimuthalHistogram"},
     }
     return table.get(name, {}).get(axes)
 
